@@ -4,7 +4,8 @@ Driver ops of C12 (model side of harness/rt/outbuf.go, outbuf_call.go):
   obn  <prog> <limit>     `prepare limit ops` (stops at the first error)
   c12call <req> <rep> <err> <kind> <q> <r> …   `callLoop` / `callHttp` (<err>: comma-separated
                           programs of sendError's steps; further arguments are the
-                          harness's generating parameters and are ignored)
+                          harness's generating parameters and are ignored); kind nats = `callNats`
+  c12send <req> <kind> <q> …   `sendOnly` (Oneway: kinds nats/http/loop; Publish: natspub/stomp/looppub)
 Program: opcode c, c%4 = 0 write, 1 writeByte(c), 2 writeString, 3 reset; write/writeString
 are followed by a 3-byte big-endian length (missing bytes = 0, taken mod 2^21); content byte j of the op at
 program offset p is (13p + j) mod 256.
@@ -90,7 +91,18 @@ def stepOutBuf (op : String) (args : List String) : Option String :=
     let r ← r.toNat?
     let o ← if kind == "loop" then some (callLoop q r (c12ParseN req) (c12ParseN rep) (errp.map c12ParseN))
             else if kind == "http" then some (callHttp q r (c12ParseN req) (c12ParseN rep))
+            else if kind == "nats" then some (callNats (c12ParseN req) (c12ParseN rep) (errp.map c12ParseN))
             else none
+    pure s!"sent={if o.sent then "y" else "n"} res={c12ErrName o.res}"
+  | "c12send", rq :: kind :: q :: _ => do
+    let req ← unhex rq
+    let q ← q.toNat?
+    let t ← if kind == "nats" then some natsTransport
+            else if kind == "natspub" then some natsPublisher
+            else if kind == "http" || kind == "loop" then some (httpTransport q)
+            else if kind == "stomp" || kind == "looppub" then some (stompPublisher q)
+            else none
+    let o := sendOnly t (c12ParseN req)
     pure s!"sent={if o.sent then "y" else "n"} res={c12ErrName o.res}"
   | _, _ => none
 
